@@ -275,6 +275,9 @@ func diffPowers(a, b map[string]int64) string {
 // checkHistory: HistoricalInfo(h) lists exactly the set bonded at the start of
 // h and only heights within the retention window exist.
 func (w *l2World) checkHistory(ctx sdk.Context, bc blockCtx) *core.Violation {
+	if w.m.HistQuirk {
+		return nil
+	}
 	entries := int64(w.histEntriesAtBegin)
 	H := bc.Height
 	for h := H - 8; h <= H; h++ {
